@@ -447,6 +447,8 @@ type Config struct {
 	ResetP    int      `json:"resetp"`    // driver: per-mille probability of World.Reset / DumpLoad per step
 	TypedObs  bool     `json:"typedobs"`  // register observers through Observer1..4 where the observed set allows
 	Arity     bool     `json:"arity"`     // driver: draw component sets from the instantiated tuples of all arities
+	ObsP      int      `json:"obsp"`      // driver: per-mille probability of an observer operation per step
+	RegMax    int      `json:"regmax"`    // registry histories: register at most this many types (0: beyond the build's limit)
 	MapT      bool     `json:"mapt"`      // single-component operations through the hand-written ecs.Map[T] instead of Map1
 	Mem       bool     `json:"mem"`       // emit mem events (heap objects of pointer-bearing components after forced GC)
 	GCStress  bool     `json:"gcstress"`  // collect garbage continuously in the background while histories run
@@ -488,6 +490,7 @@ type Exec struct {
 	obs        map[int]*ecs.Observer
 	tobs       map[int]TypedObserver
 	tsets      [][]string
+	recent     []GenFlt
 	queries    map[int]*openQuery
 	cur        *LogOp
 	opIndex    int
@@ -544,6 +547,7 @@ func (x *Exec) newWorld() {
 	x.obs = map[int]*ecs.Observer{}
 	x.tobs = map[int]TypedObserver{}
 	x.queries = map[int]*openQuery{}
+	x.recent = nil
 	resetHeapTracker()
 	x.oldObs = map[int]oldObs{}
 	x.obsSpec = map[int]GenObs{}
@@ -2008,7 +2012,19 @@ func (x *Exec) misuseBattery(i int) {
 	n := len(ops)
 	if x.Cfg.Misuse > 0 && x.Cfg.Misuse < n {
 		x.rng.Shuffle(len(ops), func(a, b int) { ops[a], ops[b] = ops[b], ops[a] })
-		n = x.Cfg.Misuse
+		// calls that name an entity as relation target come first (few, and the most state dependent)
+		sort.SliceStable(ops, func(a, b int) bool { return len(ops[a].Tg) > 0 && len(ops[b].Tg) == 0 })
+		k := 0
+		for k < len(ops) && len(ops[k].Tg) > 0 && ops[k].E != 0 {
+			k++
+		}
+		if k > 4 {
+			k = 4
+		}
+		n = x.Cfg.Misuse + k
+		if n > len(ops) {
+			n = len(ops)
+		}
 	}
 	for k, op := range ops[:n] {
 		lo := x.run(op, i+k+1)
